@@ -146,3 +146,296 @@ Print Assumptions C01_compile_correct_exec_partial.
 
 (* non-vacuity: Proofs/CompileProofs.v cc_demo, cc_demo2, cc_demo3 (vm_compute) *)
 Example C01_compile_witness := cc_demo2.
+
+(* ===================== ... with balancing captures (every constructor of Tree.node) ===================== *)
+From Verif Require Import Proofs.CompileBalDen Proofs.CompileBalBase Proofs.CompileBalDefs Proofs.CompileBal.
+
+(* The constructor set CompileBalDefs.supported2 = supported without "u = -1" on captures: (?<g-u>...) and
+   (?<-u>...) are covered.  The interpreter's capture arrays then contain balanceMatch's marker pairs; the
+   relation [caps_rel2] says each array DENOTES the reference capture stack (Proofs/CompileBalDen.v: isMatched,
+   matchIndex, matchLength read exactly the newest live capture).  New side condition (groups_ok2): the popped
+   group u is a slot, the pushed group g is a slot or -1.  The uncapture/crawl discipline is part of the
+   invariant leadsg2, not a hypothesis. *)
+Theorem C01_compile_correct2_partial :
+  forall (e : env) (p : program), 0 <= trackcount p -> tlen e <= INF ->
+  forall fuel t s res,
+    Z.of_nat fuel <= INF ->
+    sem e fuel t s = Ok res -> supported2 t = true -> st_ok e s -> groups_ok2 (capsize p) t ->
+    forall a tbl T S C M,
+      has_code p a (fst (emit cfg0 t a tbl)) -> (exists w, code_at p (a + csize cfg0 t) = Some w) ->
+      track_ok p T -> caps_rel2 p (caps s) M -> tbl_ok p (snd (emit cfg0 t a tbl)) ->
+      leadsg2 e p (a + csize cfg0 t) T S S C M (mkr a 0 (pos s) T S C M) res.
+Proof. exact compile_correct2_partial. Qed.
+Print Assumptions C01_compile_correct2_partial.
+
+Theorem C01_compile_correct2_top_partial :
+  forall (e : env) (p : program), 0 <= trackcount p -> tlen e <= INF ->
+  forall fuel o body t0 r,
+  let root := NCapture o 0 (-1) body in
+  let M0 := repeat [] (Z.to_nat (capsize p)) in
+  let stop := 2 + csize cfg0 root in
+  codes p = fst (compile cfg0 root) -> strings p = snd (compile cfg0 root) ->
+  supported2 root = true -> groups_ok2 (capsize p) root -> 0 <= t0 <= tlen e ->
+  Z.of_nat fuel <= INF ->
+  attempt e fuel root t0 = Ok r ->
+  code_at p stop = Some Stop /\
+  exists t T S C M,
+    usteps e p (mk 0 0 t0 [] [] [] M0) (mk stop 0 t T S C M) /\
+    ustep e p (mk stop 0 t T S C M) = Ok (Done (mk stop 0 t T S C M)) /\
+    match r with
+    | Some q => t = pos q /\ caps_rel2 p (caps q) M /\ matched0 (mk stop 0 t T S C M) = true
+    | None => M = M0 /\ T = [] /\ S = [] /\ C = [] /\ matched0 (mk stop 0 t T S C M) = false
+    end.
+Proof. exact compile_correct2_top_partial. Qed.
+Print Assumptions C01_compile_correct2_top_partial.
+
+Theorem C01_compile_correct2_exec_partial :
+  forall (e : env) (p : program), 0 <= trackcount p -> tlen e <= INF ->
+  forall L fuel vfuel o body t0 r s',
+  let root := NCapture o 0 (-1) body in
+  let M0 := repeat [] (Z.to_nat (capsize p)) in
+  let stop := 2 + csize cfg0 root in
+  codes p = fst (compile cfg0 root) -> strings p = snd (compile cfg0 root) ->
+  supported2 root = true -> groups_ok2 (capsize p) root -> 0 <= t0 <= tlen e ->
+  Z.of_nat fuel <= INF ->
+  attempt e fuel root t0 = Ok r ->
+  exec_at e p L vfuel t0 = Ok s' ->
+  pc s' = stop /\ mode s' = 0 /\
+  match r with
+  | Some q => tp s' = pos q /\ caps_rel2 p (caps q) (mcaps s') /\ matched0 s' = true
+  | None => mcaps s' = M0 /\ matched0 s' = false
+  end.
+Proof. exact compile_correct2_exec_partial. Qed.
+Print Assumptions C01_compile_correct2_exec_partial.
+
+(* what caps_rel2 means: per slot an array of pairs that denotes the reference stack, and the
+   interpreter's three readers answer from that stack; without markers it is caps_rel *)
+Theorem C01_caps_rel2_reads :
+  forall (e : env) (p : program) c M g, caps_rel2 p c M -> 0 <= g < capsize p -> sb_caps_ok e c ->
+  vm_is_matched g M = Some (is_matched g c) /\
+  forall i len rest, cap_get g c = (i, len) :: rest ->
+    vm_match_index g M = Some i /\ vm_match_length g M = Some len.
+Proof. exact bd_caps_rel_reads. Qed.
+Print Assumptions C01_caps_rel2_reads.
+
+Theorem C01_caps_rel2_of_plain :
+  forall (e : env) (p : program) c M, sb_caps_ok e c -> caps_rel p c M -> caps_rel2 p c M.
+Proof. exact bd_caps_rel_of_plain. Qed.
+Print Assumptions C01_caps_rel2_of_plain.
+
+(* non-vacuity: a^n b^n with (?<2-1>b) and (?<-2>), Proofs/CompileBal.v *)
+Example C01_compile2_witness := c2_demo.
+
+(* ===================== ... for every writer configuration ===================== *)
+From Verif Require Import Proofs.EraseProofs Proofs.EraseLinkProofs Proofs.CompileCapmap Proofs.CompileQuick.
+
+(* Sparse capture maps (writer.caps / mapCapnum): the code emitted under a slot map is the cfg0 code of the
+   tree with its group numbers renamed through the map (cmap_compile), and the reference semantics commutes
+   with a renaming that is injective on the groups that occur (cmap_sem).  Hence compile_correct2 holds with
+   the capture relation read THROUGH the map: slot [map g] denotes group g's reference capture stack.
+   Side conditions: cm_good (distinct keys, distinct values, no value -1: what writer.go builds),
+   the whole-match group 0 lives in slot 0, every group number of the tree is a key of the map (ren_ok),
+   every mapped group is a slot (groups_ok2 of the renamed tree). *)
+Theorem C01_compile_correct_capmap_exec_partial :
+  forall (e : env) (p : program) (cm : option (list (Z * Z))),
+  let c := {| capmap := cm; quick := None |} in
+  0 <= trackcount p -> tlen e <= INF ->
+  forall L fuel vfuel o body t0 r s',
+  let root := NCapture o 0 (-1) body in
+  let M0 := repeat [] (Z.to_nat (capsize p)) in
+  let stop := 2 + csize c root in
+  codes p = fst (compile c root) -> strings p = snd (compile c root) ->
+  supported2 root = true -> cm_good cm = true -> map_capnum c 0 = 0 ->
+  ren_ok (cm_G cm) root -> groups_ok2 (capsize p) (ren c root) ->
+  0 <= t0 <= tlen e -> Z.of_nat fuel <= INF ->
+  attempt e fuel root t0 = Ok r ->
+  exec_at e p L vfuel t0 = Ok s' ->
+  pc s' = stop /\ mode s' = 0 /\
+  match r with
+  | Some q => tp s' = pos q /\ caps_rel_map p cm (caps q) (mcaps s') /\ matched0 s' = true
+  | None => mcaps s' = M0 /\ matched0 s' = false
+  end.
+Proof. exact compile_correct_capmap_exec_partial. Qed.
+Print Assumptions C01_compile_correct_capmap_exec_partial.
+
+(* The quick program (quickCaptureSlots): C02's "the quick program is the full program of the capture-erased
+   tree, whose search agrees on position and kept groups" composed with the theorem above.  Whenever the
+   interpreter returns from the quick program it is at the final Stop, at the position of Spec.attempt on the
+   ORIGINAL tree, and the slot of every kept group -- group 0 in particular -- denotes that group's reference
+   capture stack; when Spec.attempt fails group 0 is unset. *)
+Theorem C01_compile_correct_quick_exec_partial :
+  forall (e : env) (p : program) (cm : option (list (Z * Z))) (q : list bool),
+  let cq := quick_cfg cm q in
+  let cf := full_cfg cm in
+  let keep := quick_keep cm q in
+  0 <= trackcount p -> tlen e <= INF ->
+  forall L fuel vfuel o body t0 r s',
+  let root := NCapture o 0 (-1) body in
+  let M0 := repeat [] (Z.to_nat (capsize p)) in
+  let stop := 2 + csize cq root in
+  codes p = fst (compile cq root) -> strings p = snd (compile cq root) ->
+  supported2 root = true -> cm_good cm = true -> map_capnum cf 0 = 0 ->
+  keep 0 = true -> unobs keep root ->
+  ren_ok (cm_G cm) root -> groups_ok2 (capsize p) (ren cf root) ->
+  0 <= t0 <= tlen e -> Z.of_nat fuel <= INF ->
+  attempt e fuel root t0 = Ok r ->
+  exec_at e p L vfuel t0 = Ok s' ->
+  pc s' = stop /\ mode s' = 0 /\
+  match r with
+  | Some q0 => tp s' = pos q0 /\ caps_rel_quick p cm q (caps q0) (mcaps s') /\ matched0 s' = true
+  | None => mcaps s' = M0 /\ matched0 s' = false
+  end.
+Proof. exact compile_correct_quick_exec_partial. Qed.
+Print Assumptions C01_compile_correct_quick_exec_partial.
+
+(* ... for the quick program syntax.Write really produces (q = captureSlotsInUse of the full program):
+   "group 0 is kept" and "no erased group is read" are then theorems of C02. *)
+Theorem C01_compile_correct_write_quick_exec_partial :
+  forall (e : env) (p : program) cm csz, 0 <= trackcount p -> tlen e <= INF ->
+  forall L fuel vfuel o body t0 r s' prog,
+  let root := NCapture o 0 (-1) body in
+  let qv := slots_in_use (fst (write_full cm root)) csz in
+  let M0 := repeat [] (Z.to_nat (capsize p)) in
+  write_quick cm csz root = Some prog ->
+  codes p = prog -> strings p = snd (compile (quick_cfg cm qv) root) ->
+  supported2 root = true -> cm_good cm = true -> map_capnum (full_cfg cm) 0 = 0 ->
+  (forall g, reads g root = true -> 0 <= map_capnum (full_cfg cm) g) ->
+  ren_ok (cm_G cm) root -> groups_ok2 (capsize p) (ren (full_cfg cm) root) ->
+  0 <= t0 <= tlen e -> Z.of_nat fuel <= INF ->
+  attempt e fuel root t0 = Ok r ->
+  exec_at e p L vfuel t0 = Ok s' ->
+  pc s' = 2 + csize (quick_cfg cm qv) root /\ mode s' = 0 /\
+  match r with
+  | Some q0 => tp s' = pos q0 /\ caps_rel_quick p cm qv (caps q0) (mcaps s') /\ matched0 s' = true
+  | None => mcaps s' = M0 /\ matched0 s' = false
+  end.
+Proof. exact compile_correct_write_quick_exec_partial. Qed.
+Print Assumptions C01_compile_correct_write_quick_exec_partial.
+
+Example C01_capmap_witness := cmap_demo.
+Example C01_quick_witness := cquick_demo.
+
+(* ===================== totality: the interpreter does return ===================== *)
+From Verif Require Import Proofs.VMCapacityProofs Proofs.CompileTotal Proofs.CompileLimit Proofs.CompileLimitTop.
+
+(* The missing half of C01_compile_correct2_exec_partial.  n = the number of interpreter steps of the attempt.
+   Under any limit L and any interpreter fuel, one execute() call is ErrBacktrackingStackLimit (only if
+   0 <= L), or returns (only if n < 1000*vfuel; the state is then the one of C01_compile_correct2_exec_partial),
+   or runs out of fuel (only if 1000*vfuel <= n); it never faults; without a limit and with n < 1000*vfuel it
+   does return.
+   [_partial]: the hypothesis [path_ok] -- every state of the UNBOUNDED path is at an instruction boundary and
+   its grouping stack is two words below max (8*TrackCount) 32 -- is NOT derived from compile_correct2_top
+   (whose statement exposes the path but not the shape of its frames).  It is decidable on each instance:
+   C01_exec_total_checked takes a successful run of the monitor CompileLimit.mon_steps instead. *)
+Theorem C01_exec_total_partial :
+  forall (e : env) (p : program), 0 <= trackcount p -> track_count (codes p) <= trackcount p -> tlen e <= INF ->
+  forall fuel o body t0 r,
+  let root := NCapture o 0 (-1) body in
+  codes p = fst (compile cfg0 root) -> strings p = snd (compile cfg0 root) ->
+  supported2 root = true -> groups_ok2 (capsize p) root -> 0 <= t0 <= tlen e -> Z.of_nat fuel <= INF ->
+  attempt e fuel root t0 = Ok r ->
+  path_ok e p (a0 p t0) ->
+  exists n : nat, forall L vfuel,
+    let x := exec_at e p L vfuel t0 in
+    ((x = Err E_StackLimit /\ 0 <= L) \/
+     ((n < 1000 * vfuel)%nat /\ exists s', x = Ok s') \/
+     ((1000 * vfuel <= n)%nat /\ x = Fuel)) /\
+    (L < 0 -> (n < 1000 * vfuel)%nat -> exists s', x = Ok s').
+Proof. exact compile_exec_total_partial. Qed.
+Print Assumptions C01_exec_total_partial.
+
+Theorem C01_exec_total_checked :
+  forall (e : env) (p : program), 0 <= trackcount p -> track_count (codes p) <= trackcount p -> tlen e <= INF ->
+  forall fuel o body t0 r k n,
+  let root := NCapture o 0 (-1) body in
+  codes p = fst (compile cfg0 root) -> strings p = snd (compile cfg0 root) ->
+  supported2 root = true -> groups_ok2 (capsize p) root -> 0 <= t0 <= tlen e -> Z.of_nat fuel <= INF ->
+  attempt e fuel root t0 = Ok r ->
+  mon_steps e p k (a0 p t0) = Some n ->
+  forall L vfuel,
+    let x := exec_at e p L vfuel t0 in
+    (x = Err E_StackLimit /\ 0 <= L) \/
+    ((n < 1000 * vfuel)%nat /\ exists s', x = Ok s') \/
+    ((1000 * vfuel <= n)%nat /\ x = Fuel).
+Proof. exact compile_exec_total_checked. Qed.
+Print Assumptions C01_exec_total_checked.
+
+(* the engine-independent core: ANY program, any unbounded path with path_ok; the real interpreter without a
+   limit follows it (CompileTotal.tot_step: the converse of VMUBridge.step_is_ustep) *)
+Theorem C01_real_interpreter_follows_unbounded_path :
+  forall (e : env) (p : program), 0 <= trackcount p ->
+  cp_need (codes p) 0 <= trackcount p * Gen.RunnerGen.G_ensure_factor ->
+  forall L0, L0 < 0 ->
+  forall t n sd sd' w0, code_at p 0 = Some w0 ->
+  let a := mk 0 0 t [] [] [] (repeat [] (Z.to_nat (capsize p))) in
+  path_ok e p a -> ustepsN e p n a sd -> ustep e p sd = Ok (Done sd') ->
+  forall vfuel,
+    ((n < 1000 * vfuel)%nat -> exists s', exec_at e p L0 vfuel t = Ok s' /\ norm s' = sd' /\ tinv p s') /\
+    ((1000 * vfuel <= n)%nat -> exec_at e p L0 vfuel t = Fuel).
+Proof. exact exec_total. Qed.
+Print Assumptions C01_real_interpreter_follows_unbounded_path.
+
+Example C01_total_witness := clt_demo.
+
+(* ... with the path hypothesis replaced by a STATIC check of the program (no input, no run):
+   CompileCfSafe.tyck_auto, a decidable frame-shape verifier, proved sound (cf_sound: it implies path_ok for
+   every input and start position).  Leg c01-frag evaluates it on every real program of the corpus. *)
+From Verif Require Import Proofs.CompileCfSafe.
+
+Theorem C01_static_check_implies_path_ok :
+  forall (e : env) (p : program), tyck_auto p = true -> forall t, path_ok e p (a0 p t).
+Proof. exact cf_sound. Qed.
+Print Assumptions C01_static_check_implies_path_ok.
+
+Theorem C01_exec_total_typed :
+  forall (e : env) (p : program), 0 <= trackcount p -> track_count (codes p) <= trackcount p -> tlen e <= INF ->
+  forall fuel o body t0 r,
+  let root := NCapture o 0 (-1) body in
+  codes p = fst (compile cfg0 root) -> strings p = snd (compile cfg0 root) ->
+  supported2 root = true -> groups_ok2 (capsize p) root -> 0 <= t0 <= tlen e -> Z.of_nat fuel <= INF ->
+  attempt e fuel root t0 = Ok r ->
+  tyck_auto p = true ->
+  exists n : nat, forall L vfuel,
+    let x := exec_at e p L vfuel t0 in
+    ((x = Err E_StackLimit /\ 0 <= L) \/
+     ((n < 1000 * vfuel)%nat /\ exists s', x = Ok s') \/
+     ((1000 * vfuel <= n)%nat /\ x = Fuel)) /\
+    (L < 0 -> (n < 1000 * vfuel)%nat -> exists s', x = Ok s').
+Proof. exact compile_exec_total_typed. Qed.
+Print Assumptions C01_exec_total_typed.
+
+(* ===================== totality, unconditionally ===================== *)
+(* Every program the writer emits is accepted by the verifier (Proofs/CompileTyEmit.v compiled_tyck: a shape
+   function defined by recursion on the tree, every emitted instruction consistent with it, depth of the grouping
+   stack <= 2 * TrackCount), so path_ok needs no hypothesis: the interpreter with its real finite stacks, run on
+   the program of a supported2 tree, under any limit L and any interpreter fuel,
+     - never faults,
+     - returns when 1000*vfuel exceeds the number n of steps of the attempt (and L < 0),
+     - under a limit returns that same state (C01_compile_correct2_exec_partial: Spec.attempt's answer) or
+       ErrBacktrackingStackLimit (only if 0 <= L).
+   What is left of "_partial" in the C01 chain: reference fuel / text length <= 2^31-1, NAlternate non-empty and
+   0 <= m <= n in single-character loops (the parser builds nothing else); writer configuration cfg0 here (the
+   slot-map and quick-program theorems above reduce the other configurations to it for the "when it returns" half). *)
+From Verif Require Import Proofs.CompileTyEmit Proofs.CompileSafe.
+
+Theorem C01_every_compiled_program_is_control_flow_safe :
+  forall c root p, codes p = fst (compile c root) -> track_count (codes p) <= trackcount p ->
+  forall e t, path_ok e p (a0 p t).
+Proof. exact compiled_path_ok. Qed.
+Print Assumptions C01_every_compiled_program_is_control_flow_safe.
+
+Theorem C01_exec_total :
+  forall (e : env) (p : program), 0 <= trackcount p -> track_count (codes p) <= trackcount p -> tlen e <= INF ->
+  forall fuel o body t0 r,
+  let root := NCapture o 0 (-1) body in
+  codes p = fst (compile cfg0 root) -> strings p = snd (compile cfg0 root) ->
+  supported2 root = true -> groups_ok2 (capsize p) root -> 0 <= t0 <= tlen e -> Z.of_nat fuel <= INF ->
+  attempt e fuel root t0 = Ok r ->
+  exists n : nat, forall L vfuel,
+    let x := exec_at e p L vfuel t0 in
+    ((x = Err E_StackLimit /\ 0 <= L) \/
+     ((n < 1000 * vfuel)%nat /\ exists s', x = Ok s') \/
+     ((1000 * vfuel <= n)%nat /\ x = Fuel)) /\
+    (L < 0 -> (n < 1000 * vfuel)%nat -> exists s', x = Ok s').
+Proof. exact compile_exec_total. Qed.
+Print Assumptions C01_exec_total.
